@@ -1,1 +1,333 @@
-//! execution engines
+//! Execution engines: package writer, plain forc build, amortised forc build (std compiled once
+//! per worker), and the FuelVM script runner with normalised observations.
+
+use anyhow::{anyhow, bail, Result};
+use forc_pkg::manifest::GenericManifestFile;
+use forc_pkg::{BuildOpts, BuildPlan, BuildProfile, Built, BuiltPackage, CompiledPackage, PackageDescriptor, PkgOpts};
+use forc_test::ecal::EcalSyscallHandler;
+use fuel_tx::TransactionBuilder;
+use fuel_vm::checked_transaction::builder::TransactionBuilderExt;
+use fuel_vm::fuel_tx::{self, consensus_parameters::ConsensusParametersV1};
+use fuel_vm::interpreter::Interpreter;
+use fuel_vm::prelude::*;
+use rand::{rngs::StdRng, Rng, SeedableRng};
+use serde::{Deserialize, Serialize};
+use std::collections::HashMap;
+use std::path::{Path, PathBuf};
+use std::sync::Arc;
+use sway_core::{namespace, BuildTarget, DbgGeneration, Engines};
+use sway_features::ExperimentalFeatures;
+
+pub const STD_PATH: &str = "/repo/sway-lib-std";
+
+#[derive(Clone, Copy, Debug, PartialEq, Eq, Serialize, Deserialize)]
+pub enum Profile {
+    Debug,
+    Release,
+}
+
+impl Profile {
+    pub fn name(self) -> &'static str {
+        match self {
+            Profile::Debug => "debug",
+            Profile::Release => "release",
+        }
+    }
+    pub fn build_profile(self) -> BuildProfile {
+        match self {
+            Profile::Debug => BuildProfile::debug(),
+            Profile::Release => BuildProfile::release(),
+        }
+    }
+    pub const BOTH: [Profile; 2] = [Profile::Debug, Profile::Release];
+}
+
+/// Write a one-file package. `kind` is only used for the file name convention.
+pub fn write_pkg(dir: &Path, name: &str, src: &str, with_std: bool) -> Result<()> {
+    write_pkg_ext(dir, name, src, with_std, "main.sw", "")
+}
+
+pub fn write_pkg_ext(dir: &Path, name: &str, src: &str, with_std: bool, entry: &str, extra_manifest: &str) -> Result<()> {
+    std::fs::create_dir_all(dir.join("src"))?;
+    let deps = if with_std { format!("std = {{ path = \"{STD_PATH}\" }}\n") } else { String::new() };
+    let manifest = format!(
+        "[project]\nauthors = [\"verif\"]\nentry = \"{entry}\"\nlicense = \"Apache-2.0\"\nname = \"{name}\"\nimplicit-std = false\n{extra_manifest}\n[dependencies]\n{deps}"
+    );
+    std::fs::write(dir.join("Forc.toml"), manifest)?;
+    std::fs::write(dir.join("src").join(entry), src)?;
+    Ok(())
+}
+
+/// Plain forc build of a package directory (absolute path), the way `forc build` does it.
+pub fn plain_build(dir: &Path, profile: Profile) -> Result<Arc<BuiltPackage>> {
+    let opts = BuildOpts {
+        pkg: PkgOpts { path: Some(dir.to_string_lossy().to_string()), offline: true, terse: true, ..Default::default() },
+        release: profile == Profile::Release,
+        build_profile: profile.name().to_string(),
+        no_output: true,
+        ..Default::default()
+    };
+    match forc_pkg::build_with_options(&opts, None)? {
+        Built::Package(p) => Ok(p),
+        Built::Workspace(_) => bail!("unexpected workspace"),
+    }
+}
+
+/// Amortised forc engine: std compiled once per (worker, profile); every package afterwards is
+/// compiled with exactly the calls `forc_pkg::build` makes for the package node.
+pub struct Amortised {
+    work: PathBuf,
+    per_profile: HashMap<&'static str, StdCache>,
+    counter: u64,
+    last: PathBuf,
+}
+
+struct StdCache {
+    engines: Engines,
+    std_ns: namespace::Package,
+    compiled: u64,
+}
+
+pub struct Compiled {
+    pub pkg: CompiledPackage,
+    pub dir: PathBuf,
+}
+
+impl Amortised {
+    pub fn new(work: &Path) -> Self {
+        std::fs::create_dir_all(work).ok();
+        Amortised { work: work.to_path_buf(), per_profile: HashMap::new(), counter: 0, last: PathBuf::new() }
+    }
+
+    fn std_cache(&mut self, profile: Profile) -> Result<&mut StdCache> {
+        let key = profile.name();
+        // recycle to bound engine growth
+        if let Some(c) = self.per_profile.get(key) {
+            if c.compiled >= 400 {
+                self.per_profile.remove(key);
+            }
+        }
+        if !self.per_profile.contains_key(key) {
+            let dir = self.work.join(format!("stdseed_{key}_{}", self.counter));
+            self.counter += 1;
+            write_pkg(&dir, "stdseed", "library;\n", true)?;
+            let plan = BuildPlan::from_pkg_opts(&PkgOpts { path: Some(dir.to_string_lossy().to_string()), offline: true, terse: true, ..Default::default() })?;
+            let engines = Engines::default();
+            let graph = plan.graph();
+            let std_node = graph.node_indices().find(|n| graph[*n].name == "std").ok_or_else(|| anyhow!("no std node"))?;
+            let pkg = &graph[std_node];
+            let manifest = &plan.manifest_map()[&pkg.id()];
+            let bp = profile.build_profile();
+            let dbg = if bp.is_release() { DbgGeneration::None } else { DbgGeneration::Full };
+            let experimental = ExperimentalFeatures::new(&manifest.project.experimental, &[], &[]).map_err(|e| anyhow!("{e}"))?;
+            let descriptor = PackageDescriptor { name: pkg.name.clone(), target: BuildTarget::Fuel, pinned: pkg.clone(), manifest_file: manifest.clone() };
+            let program_id = engines.se().get_or_create_program_id_from_manifest_path(&manifest.entry_path());
+            let ns = forc_pkg::dependency_namespace(&HashMap::default(), &HashMap::new(), graph, std_node, &engines, None, program_id, experimental, dbg).map_err(|e| anyhow!("std namespace: {:?}", e.first()))?;
+            let mut sm = sway_core::source_map::SourceMap::new();
+            let bp_lib = BuildProfile { include_tests: false, ..bp };
+            let compiled = forc_pkg::compile(&descriptor, &bp_lib, &engines, ns, &mut sm, experimental, dbg)?;
+            let _ = std::fs::remove_dir_all(&dir);
+            self.per_profile.insert(key, StdCache { engines, std_ns: compiled.namespace, compiled: 0 });
+        }
+        Ok(self.per_profile.get_mut(key).unwrap())
+    }
+
+    /// Compile one single-file package that depends on std. `include_tests` as for forc test.
+    pub fn compile(&mut self, name: &str, src: &str, profile: Profile) -> Result<Compiled> {
+        let dir = self.work.join(format!("p{}", self.counter));
+        self.counter += 1;
+        self.last = dir.clone();
+        write_pkg(&dir, name, src, true)?;
+        let r = self.compile_dir(&dir, profile);
+        r.map(|pkg| Compiled { pkg, dir })
+    }
+
+    pub fn compile_dir(&mut self, dir: &Path, profile: Profile) -> Result<CompiledPackage> {
+        let cache = self.std_cache(profile)?;
+        cache.compiled += 1;
+        let plan = BuildPlan::from_pkg_opts(&PkgOpts { path: Some(dir.to_string_lossy().to_string()), offline: true, terse: true, ..Default::default() })?;
+        let graph = plan.graph();
+        let std_node = graph.node_indices().find(|n| graph[*n].name == "std").ok_or_else(|| anyhow!("no std node"))?;
+        let node = plan.member_nodes().next().ok_or_else(|| anyhow!("no member"))?;
+        let pkg = &graph[node];
+        let manifest = &plan.manifest_map()[&pkg.id()];
+        let bp = profile.build_profile();
+        let dbg = match (bp.is_release(), manifest.project.force_dbg_in_release) {
+            (true, Some(true)) | (false, _) => DbgGeneration::Full,
+            (true, _) => DbgGeneration::None,
+        };
+        let experimental = ExperimentalFeatures::new(&manifest.project.experimental, &[], &[]).map_err(|e| anyhow!("{e}"))?;
+        let descriptor = PackageDescriptor { name: pkg.name.clone(), target: BuildTarget::Fuel, pinned: pkg.clone(), manifest_file: manifest.clone() };
+        let engines = &cache.engines;
+        let program_id = engines.se().get_or_create_program_id_from_manifest_path(&manifest.entry_path());
+        let mut libs = HashMap::default();
+        libs.insert(std_node, cache.std_ns.clone());
+        let ns = forc_pkg::dependency_namespace(&libs, &HashMap::new(), graph, node, engines, None, program_id, experimental, dbg).map_err(|e| anyhow!("namespace: {:?}", e.first()))?;
+        let mut sm = sway_core::source_map::SourceMap::new();
+        forc_pkg::compile(&descriptor, &bp, engines, ns, &mut sm, experimental, dbg)
+    }
+
+    /// Compile the package with the harness's own Handler to obtain the diagnostics (and whether
+    /// anything is an internal compiler error). Returns (errors, produced_bytecode).
+    pub fn diagnose_dir(&mut self, dir: &Path, profile: Profile) -> Result<(Vec<sway_error::error::CompileError>, bool)> {
+        let cache = self.std_cache(profile)?;
+        cache.compiled += 1;
+        let plan = BuildPlan::from_pkg_opts(&PkgOpts { path: Some(dir.to_string_lossy().to_string()), offline: true, terse: true, ..Default::default() })?;
+        let graph = plan.graph();
+        let std_node = graph.node_indices().find(|n| graph[*n].name == "std").ok_or_else(|| anyhow!("no std node"))?;
+        let node = plan.member_nodes().next().ok_or_else(|| anyhow!("no member"))?;
+        let pkg = &graph[node];
+        let manifest = &plan.manifest_map()[&pkg.id()];
+        let bp = profile.build_profile();
+        let dbg = if bp.is_release() { DbgGeneration::None } else { DbgGeneration::Full };
+        let experimental = ExperimentalFeatures::new(&manifest.project.experimental, &[], &[]).map_err(|e| anyhow!("{e}"))?;
+        let engines = &cache.engines;
+        let program_id = engines.se().get_or_create_program_id_from_manifest_path(&manifest.entry_path());
+        let mut libs = HashMap::default();
+        libs.insert(std_node, cache.std_ns.clone());
+        let ns = forc_pkg::dependency_namespace(&libs, &HashMap::new(), graph, node, engines, None, program_id, experimental, dbg).map_err(|e| anyhow!("namespace: {:?}", e.first()))?;
+        let cfg = forc_pkg::sway_build_config(manifest.dir(), &manifest.entry_path(), BuildTarget::Fuel, &bp, dbg)?;
+        let handler = sway_error::handler::Handler::default();
+        let source = manifest.entry_string()?;
+        let mut produced = false;
+        if let Ok(programs) = sway_core::compile_to_ast(&handler, engines, source, ns, Some(&cfg), &pkg.name, None, experimental) {
+            if programs.typed.is_ok() && !handler.has_errors() {
+                if let Ok(mut asm) = sway_core::ast_to_asm(&handler, engines, &programs, &cfg, experimental) {
+                    let mut sm = sway_core::source_map::SourceMap::new();
+                    if sway_core::asm_to_bytecode(&handler, &mut asm, &mut sm, engines.se(), &cfg).is_ok() {
+                        produced = !handler.has_errors();
+                    }
+                }
+            }
+        }
+        let (errors, _, _) = handler.consume();
+        Ok((errors, produced))
+    }
+
+    /// directory of the most recently written package
+    pub fn last_dir(&self) -> PathBuf {
+        self.last.clone()
+    }
+
+    pub fn remove(&self, c: &Compiled) {
+        let _ = std::fs::remove_dir_all(&c.dir);
+    }
+}
+
+// ------------------------------------------------------------------------------------------
+// VM runner
+
+#[derive(Clone, Debug, PartialEq, Eq, Serialize, Deserialize)]
+pub enum Outcome {
+    Return(u64),
+    ReturnData(Vec<u8>),
+    Revert(u64),
+    Panic(String),
+    /// the VM refused the transaction (not an execution outcome)
+    VmError(String),
+}
+
+impl Outcome {
+    pub fn reverted(&self) -> bool {
+        matches!(self, Outcome::Revert(_) | Outcome::Panic(_))
+    }
+}
+
+#[derive(Clone, Debug, PartialEq, Eq, Serialize, Deserialize)]
+pub struct Observation {
+    pub outcome: Outcome,
+    /// (rb = log id, data) for LogData; (rb, ra as 8 BE bytes) for Log
+    pub logs: Vec<(u64, Vec<u8>)>,
+    pub gas_used: u64,
+}
+
+impl Observation {
+    /// Comparison of C02: same return data, same logged values, same revert status. When
+    /// both reverted only the status is compared.
+    pub fn same_behaviour(&self, other: &Observation) -> bool {
+        match (self.outcome.reverted(), other.outcome.reverted()) {
+            (true, true) => true,
+            (false, false) => self.outcome == other.outcome && self.logs == other.logs,
+            _ => false,
+        }
+    }
+    pub fn short(&self) -> String {
+        let o = match &self.outcome {
+            Outcome::Return(v) => format!("Return({v})"),
+            Outcome::ReturnData(d) => format!("ReturnData({})", hex::encode(d)),
+            Outcome::Revert(c) => format!("Revert({c:#x})"),
+            Outcome::Panic(r) => format!("Panic({r})"),
+            Outcome::VmError(e) => format!("VmError({e})"),
+        };
+        format!("{o} logs={}", self.logs.iter().map(|(id, d)| format!("{id}:{}", hex::encode(d))).collect::<Vec<_>>().join(","))
+    }
+}
+
+pub fn run_script(bytecode: &[u8], script_data: &[u8]) -> Observation {
+    match run_script_inner(bytecode, script_data) {
+        Ok(o) => o,
+        Err(e) => Observation { outcome: Outcome::VmError(e.to_string()), logs: vec![], gas_used: 0 },
+    }
+}
+
+fn run_script_inner(bytecode: &[u8], script_data: &[u8]) -> Result<Observation> {
+    let storage = MemoryStorage::default();
+    let rng = &mut StdRng::seed_from_u64(2322u64);
+    let maturity = 1.into();
+    let block_height = (u32::MAX >> 1).into();
+    let max_size = 64 * 1024 * 1024;
+    let script_params = ScriptParameters::DEFAULT.with_max_script_length(max_size).with_max_script_data_length(max_size);
+    let tx_params = TxParameters::DEFAULT.with_max_size(max_size);
+    let params = ConsensusParameters::V1(ConsensusParametersV1 { script_params, tx_params, ..Default::default() });
+    let mut tb = TransactionBuilder::script(bytecode.to_vec(), script_data.to_vec());
+    tb.with_params(params).add_unsigned_coin_input(SecretKey::random(rng), rng.gen(), 1, Default::default(), rng.gen()).maturity(maturity);
+    let gas_price = 0;
+    let consensus_params = tb.get_params().clone();
+    let params = ConsensusParameters::default();
+    let tmp_tx = tb.clone().finalize();
+    let max_gas = tmp_tx.max_gas(consensus_params.gas_costs(), consensus_params.fee_params()) + 1;
+    tb.script_gas_limit(consensus_params.tx_params().max_gas_per_tx() - max_gas);
+    let tx = tb.finalize_checked(block_height).into_ready(gas_price, params.gas_costs(), params.fee_params(), None).map_err(|e| anyhow!("{e:?}"))?;
+    let mem_instance = MemoryInstance::new();
+    let mut i: Interpreter<_, _, _, EcalSyscallHandler> = Interpreter::with_storage(mem_instance, storage, Default::default());
+    let transition = i.transact(tx).map_err(|e| anyhow!("{e:?}"))?;
+    Ok(observe(transition.receipts()))
+}
+
+pub fn observe(receipts: &[fuel_tx::Receipt]) -> Observation {
+    use fuel_tx::Receipt;
+    let mut outcome = None;
+    let mut logs = vec![];
+    let mut gas_used = 0;
+    for r in receipts {
+        match r {
+            Receipt::Return { val, .. } => {
+                if outcome.is_none() {
+                    outcome = Some(Outcome::Return(*val));
+                }
+            }
+            Receipt::ReturnData { data, .. } => {
+                if outcome.is_none() {
+                    outcome = Some(Outcome::ReturnData(data.as_ref().map(|d| d.to_vec()).unwrap_or_default()));
+                }
+            }
+            Receipt::Revert { ra, .. } => {
+                outcome = Some(Outcome::Revert(*ra));
+            }
+            Receipt::Panic { reason, .. } => {
+                outcome = Some(Outcome::Panic(format!("{:?}", reason.reason())));
+            }
+            Receipt::Log { ra, rb, .. } => logs.push((*rb, ra.to_be_bytes().to_vec())),
+            Receipt::LogData { rb, data, .. } => logs.push((*rb, data.as_ref().map(|d| d.to_vec()).unwrap_or_default())),
+            Receipt::ScriptResult { gas_used: g, .. } => gas_used = *g,
+            _ => {}
+        }
+    }
+    Observation { outcome: outcome.unwrap_or(Outcome::VmError("no terminal receipt".into())), logs, gas_used }
+}
+
+/// Silence forc's progress output inside workers (it goes to the shard log otherwise).
+pub fn quiet() {
+    // forc-tracing prints through `tracing` when a subscriber is installed and through
+    // println! otherwise; the shard's stdout is a log file, so nothing to do.
+}
